@@ -330,7 +330,9 @@ Inductive ev :=
 | EMemServe (w : who) (k : nat)  (* memory answers its k-th pending request *)
 | EDeliverLocal (w : who) (k : nat)
 | ECtrlReq (w : who) (m : migreq)(* the command processor offers a request *)
-| ETakeCtrl (w : who).           (* ... and takes the head of the control out buffer *)
+| ETakeCtrl (w : who)            (* ... and takes the head of the control out buffer *)
+| EInject (m : pmsg).            (* a third party puts a message on the network (never
+                                    part of the two-controller environment of the theorems) *)
 
 Inductive obs := OAcc (b : bool) | OTick (progress : bool) | OMsg (m : option pmsg) | OCrash.
 
@@ -410,6 +412,7 @@ Definition step (s : sys) (e : ev) : sys * obs :=
       (let s1 := setp w (getp w s <| ctl_out := r |>) s in
        match w with PA => s1 <| g_done := g_done s ++ [m] |> | PB => s1 end, OMsg (Some m))
     end
+  | EInject m => (s <| net := net s ++ [m] |>, OAcc true)
   end.
 
 Definition run (s : sys) (evs : list ev) : sys := fold_left (fun s e => fst (step s e)) evs s.
@@ -480,7 +483,7 @@ Definition gen_store (k c : N) : store := fun a => ((a * k) mod 8191 + c) mod 25
 
 (** position-weighted checksum of [lo, lo+len) *)
 Definition checksum (st : store) (lo : N) (len : nat) : N :=
-  fold_left (fun acc j => (acc * 257 + st (lo + N.of_nat j) + 1) mod 2305843009213693951)
+  fold_left (fun acc j => (acc * 257 + st (lo + N.of_nat j) + 1) mod 2147483647)
             (seq 0 len) 0.
 
 Record window := mkWin { w_who : who; w_lo : N; w_len : nat; w_sum : N }.
@@ -491,37 +494,37 @@ Record case := mkCase {
   c_final : list window
 }.
 
-Fixpoint first_diff (i : nat) (l1 l2 : list obs) : option nat :=
+Fixpoint first_diff (i : N) (l1 l2 : list obs) : option N :=
   match l1, l2 with
   | [], [] => None
-  | a :: l1', b :: l2' => if obs_eqb a b then first_diff (S i) l1' l2' else Some i
+  | a :: l1', b :: l2' => if obs_eqb a b then first_diff (i + 1) l1' l2' else Some i
   | _, _ => Some i
   end.
 
 (** index of the first differing observation; a wrong final window is
     reported as index 1000000 + window number *)
-Definition check_case (c : case) : option nat :=
+Definition check_case (c : case) : option N :=
   let s0 := std_sys (gen_store (c_ka c) (c_ca c)) (gen_store (c_kb c) (c_cb c)) in
   let evs := map fst (c_trace c) in
   match first_diff 0 (run_obs s0 evs) (map snd (c_trace c)) with
   | Some k => Some k
   | None =>
     let s := run s0 evs in
-    let fix go (i : nat) (ws : list window) : option nat :=
+    let fix go (i : N) (ws : list window) : option N :=
       match ws with
       | [] => None
       | w :: r => if checksum (getst (w_who w) s) (w_lo w) (w_len w) =? w_sum w
-                  then go (S i) r else Some (1000000 + i)%nat
+                  then go (i + 1) r else Some (1000000 + i)
       end in
-    go 0%nat (c_final c)
+    go 0 (c_final c)
   end.
 
-Fixpoint mismatches_from (i : nat) (cs : list case) : list (nat * nat) :=
+Fixpoint mismatches_from (i : N) (cs : list case) : list (N * N) :=
   match cs with
   | [] => []
   | c :: r => match check_case c with
-              | None => mismatches_from (S i) r
-              | Some k => (i, k) :: mismatches_from (S i) r
+              | None => mismatches_from (i + 1) r
+              | Some k => (i, k) :: mismatches_from (i + 1) r
               end
   end.
 Definition mismatches := mismatches_from 0.
